@@ -61,8 +61,15 @@ def for_property(prop: str):
     mods["aiortc.rtcrtpsender"] = Profile(snd, rewrite={"join", "containers"})
     ratep = {"int": shims.sx_int, "min": shims.sx_min, "max": shims.sx_max, "dict": sx_dict, "range": shims.sx_range}
     mods["aiortc.rate"] = Profile(ratep, rewrite={"containers"})
-    pcp = {"int": shims.sx_int, "dict": sx_dict, "set": sx_set}
-    mods["aiortc.rtcpeerconnection"] = Profile(pcp, rewrite={"containers"})
+    if prop == "C03":
+        pcp = {"int": shims.sx_int, "dict": sx_dict, "set": sx_set}
+        mods["aiortc.rtcpeerconnection"] = Profile(pcp, rewrite={"containers"})
+    if prop == "C14":
+        # real peer connections on a real event loop: all data is concrete, only the call sequence
+        # is solver-chosen; no module of the connection stack is instrumented
+        for k in ("aiortc.rtcsctptransport", "aiortc.rtcdtlstransport", "aiortc.rtcrtpreceiver", "aiortc.rtcrtpsender", "aiortc.rtp", "aiortc.rate", "aiortc.rtcdatachannel", "aiortc.jitterbuffer", "aiortc.utils", "aiortc.codecs.h264", "aiortc.codecs.vpx"):
+            mods.pop(k, None)
+        return {"modules": mods, "default": None}
     dtls = {"set": sx_set, "dict": sx_dict, "bytes": shims.sx_bytes, "int": shims.sx_int}
     mods["aiortc.rtcdtlstransport"] = Profile(dtls, rewrite={"join", "containers"})
     return {"modules": mods, "default": None}
